@@ -662,6 +662,12 @@ func (ex *Exec) sliceBytes(st *State, s *SliceV) *Term {
 	}
 	root := ex.objVal(st, s.Obj)
 	back := ex.readPath(st, root, s.Path, s.Obj.Typ)
+	if av, isArr := back.(*ArrV); isArr && isByte(av.Elem) && s.Off.IsConstInt() && s.Len.IsConstInt() && s.Off.I.IsInt64() && s.Len.I.IsInt64() {
+		lo, n := int(s.Off.I.Int64()), int(s.Len.I.Int64())
+		if lo >= 0 && n >= 0 && lo+n <= len(av.E) {
+			return ex.bytesOfCells(av.E[lo : lo+n])
+		}
+	}
 	bt, ok := back.(*Term)
 	if !ok || bt.Sort != SB {
 		return ex.G.FreshBytes("content", -1)
